@@ -21,6 +21,8 @@
   that excludes exactly those spellings.
 -/
 import TypedpyModel.Lemmas.EqLemmas
+import TypedpyModel.Lemmas.HashLemmas
+import TypedpyModel.Lemmas.CopyLemmas
 import TypedpyModel.Generated.Wrappers
 set_option linter.unusedVariables false
 set_option linter.unusedSimpArgs false
@@ -292,5 +294,125 @@ theorem deepcopy_hash_counterexample :
         == hashKey exR (deepcopyI { name := "A", required := [] } List.reverse
             { cls := "A", attrs := [("s", .set false [.str "a", .int 3])] })) = false := by
   decide
+
+/-! ### `a == b → hash(a) == hash(b)` on the region that excludes the findings -/
+
+/-- **C11 (eq ⇒ hash, partial)**: instances of one class that are `==` and spelled alike
+    (`sameSpellI`: same Python number types, same Set / Map iteration orders, same attribute names,
+    no Decimals) print — hence hash — alike, whatever the insertion order of their `__dict__`s and
+    for every rendering of floats / foreign objects that is a function of the value.
+    (`sameSpellI` alone already forces the conclusion; `heq` records that the region lies inside
+    the statement's domain.) -/
+theorem eq_hash_partial (R : Render) (hR : RenderRespects R) (d : Attrs) (a b : Inst)
+    (ha : keysDistinct (a.attrs.map (·.1)) = true) (hb : keysDistinct (b.attrs.map (·.1)) = true)
+    (heq : instEq d a b = true) (hs : sameSpellI a b = true) : hashKey R a = hashKey R b :=
+  hashKey_of_sameSpell R hR a b ha hb hs
+
+/-- non-vacuity: different `__dict__` order and different representations of one float are inside
+    the region; the instances are `==` and print alike -/
+theorem eq_hash_partial_example :
+    sameSpellI { cls := "A", attrs := [("x", .float ⟨1, 2⟩), ("m", .dict [(.str "a", .list [.int 1, .bool true])])] }
+               { cls := "A", attrs := [("m", .dict [(.str "a", .list [.int 1, .bool true])]), ("x", .float ⟨2, 4⟩)] } = true
+    ∧ instEq [] { cls := "A", attrs := [("x", .float ⟨1, 2⟩), ("m", .dict [(.str "a", .list [.int 1, .bool true])])] }
+               { cls := "A", attrs := [("m", .dict [(.str "a", .list [.int 1, .bool true])]), ("x", .float ⟨2, 4⟩)] } = true
+    ∧ (hashKey { exR with float := fun _ => "0.5" }
+          { cls := "A", attrs := [("x", .float ⟨1, 2⟩), ("m", .dict [(.str "a", .list [.int 1, .bool true])])] }
+        == hashKey { exR with float := fun _ => "0.5" }
+          { cls := "A", attrs := [("m", .dict [(.str "a", .list [.int 1, .bool true])]), ("x", .float ⟨2, 4⟩)] }) = true := by
+  decide
+
+/-- the findings are outside the region -/
+theorem eq_hash_region_excludes_findings :
+    sameSpellI { cls := "A", attrs := [("x", .int 1)] } { cls := "A", attrs := [("x", .float ⟨1, 1⟩)] } = false
+    ∧ sameSpellI { cls := "A", attrs := [("x", .bool true)] } { cls := "A", attrs := [("x", .int 1)] } = false
+    ∧ sameSpellI { cls := "A", attrs := [("s", .set false [.int 0, .int 8])] }
+                 { cls := "A", attrs := [("s", .set false [.int 8, .int 0])] } = false
+    ∧ sameSpellI { cls := "A", attrs := [("m", .dict [(.str "a", .int 1), (.str "b", .int 2)])] }
+                 { cls := "A", attrs := [("m", .dict [(.str "b", .int 2), (.str "a", .int 1)])] } = false
+    ∧ sameSpellI { cls := "A", attrs := [("x", .int 1), ("extra", .none)] } { cls := "A", attrs := [("x", .int 1)] } = false
+    ∧ sameSpellI { cls := "A", attrs := [("s", .set false [])] } { cls := "A", attrs := [("s", .set true [])] } = false
+    ∧ sameSpellI { cls := "A", attrs := [("x", .dec ⟨1, 1⟩)] } { cls := "A", attrs := [("x", .dec ⟨1, 1⟩)] } = false := by
+  decide
+
+/-! ### deepcopy and pickle -/
+
+theorem filter_all_true {α} (l : List α) : l.filter (fun _ => true) = l :=
+  List.filter_eq_self.2 (fun _ _ => rfl)
+
+theorem getA_map (d : Attrs) (f : PyVal → PyVal) (x : Inst) (k : String) (i : Bool) (n : List String) :
+    getA d { cls := x.cls, attrs := x.attrs.map (fun p => (p.1, f p.2)), instantiated := i, nones := n } k
+      = match lookup k x.attrs with
+        | some v => f v
+        | none => match lookup k d with
+          | some dv => dv
+          | none => .none := by
+  simp only [getA, lookup_map_val f k x.attrs]
+  cases lookup k x.attrs <;> rfl
+
+theorem instEq_map (d : Attrs) (f : PyVal → PyVal) (x : Inst) (i : Bool) (n : List String)
+    (hf : ∀ p ∈ x.attrs, pyEq p.2 (f p.2) = true) (hn : namesEq x.nones n = true) :
+    instEq d x { cls := x.cls, attrs := x.attrs.map (fun p => (p.1, f p.2)), instantiated := i, nones := n }
+      = true := by
+  refine (instEq_fieldwise d x _).2 ⟨rfl, fun k => ?_, hn⟩
+  rw [getA_map]
+  unfold getA
+  cases hl : lookup k x.attrs with
+  | some v => exact hf (k, v) (lookup_mem' k _ v hl)
+  | none => exact pyEq_refl _
+
+/-- **C11 (deepcopy)**: `copy.deepcopy(x) == x`, for every iteration order the rebuilt sets come
+    out in (class that does not ignore `None`, or an immutable class, which is returned as is) -/
+theorem deepcopy_eq (S : SetOrder) (hS : MemPreserving S) (c : ClassOpts) (d : Attrs) (x : Inst)
+    (hign : c.ignoreNone = false ∨ c.immutable = true) : instEq d x (deepcopyI c S x) = true := by
+  unfold deepcopyI
+  cases hi : c.immutable with
+  | true => simp only [if_true]; exact instEq_refl d x
+  | false =>
+    have hign' : c.ignoreNone = false := by
+      rcases hign with h | h
+      · exact h
+      · rw [hi] at h; cases h
+    simp only [Bool.false_eq_true, if_false, hign', Bool.and_false, Bool.false_and, Bool.not_false,
+      filter_all_true]
+    rw [pickleAttrs_eq_map [] S none x.attrs (fun _ _ => rfl)]
+    exact instEq_map d (pickleV [] S) x x.instantiated x.nones
+      (fun p _ => pyEq_pickleV [] S hS p.2 (keptV_nil p.2)) (namesEq_refl _)
+
+/-- … and it prints / hashes like `x` when the rebuilt sets keep their iteration order
+    (otherwise not: `deepcopy_hash_counterexample`) -/
+theorem deepcopy_hash_partial (R : Render) (c : ClassOpts) (x : Inst)
+    (hign : c.ignoreNone = false ∨ c.immutable = true) :
+    deepcopyI c id x = x ∧ hashKey R (deepcopyI c id x) = hashKey R x := by
+  have h : deepcopyI c id x = x := by
+    unfold deepcopyI
+    cases hi : c.immutable with
+    | true => simp
+    | false =>
+      have hign' : c.ignoreNone = false := by
+        rcases hign with h | h
+        · exact h
+        · rw [hi] at h; cases h
+      simp only [Bool.false_eq_true, if_false, hign', Bool.and_false, Bool.false_and, Bool.not_false,
+        filter_all_true]
+      rw [pickleAttrs_id [] none x.attrs ((keptAttrs_iff _ _ _).2 (fun p _ => ⟨rfl, keptV_nil p.2⟩))]
+  exact ⟨h, by rw [h]⟩
+
+/-- **C11 (pickle, partial)**: the unpickled copy `==` the original when no Structure in it carries
+    an additional property (`keptAttrs`; otherwise not: `pickle_counterexample_extras`) -/
+theorem pickle_eq_partial (T : ClassTbl) (S : SetOrder) (hS : MemPreserving S) (d : Attrs) (x : Inst)
+    (hk : keptAttrs T (lookup x.cls T) x.attrs = true) (hn : x.nones = []) :
+    instEq d x (pickleI T S x) = true := by
+  unfold pickleI
+  have hk' := (keptAttrs_iff _ _ _).1 hk
+  rw [pickleAttrs_eq_map T S _ x.attrs (fun p hp => (hk' p hp).1)]
+  exact instEq_map d (pickleV T S) x false []
+    (fun p hp => pyEq_pickleV T S hS p.2 (hk' p hp).2) (by rw [hn]; rfl)
+
+/-- … and prints / hashes like it when the rebuilt sets keep their iteration order -/
+theorem pickle_hash_partial (R : Render) (T : ClassTbl) (x : Inst)
+    (hk : keptAttrs T (lookup x.cls T) x.attrs = true) (hn : x.nones = []) :
+    hashKey R (pickleI T id x) = hashKey R x := by
+  unfold pickleI hashKey
+  simp only [pickleAttrs_id T _ x.attrs hk, hn]
 
 end Typedpy.C11
